@@ -65,12 +65,17 @@ CConnect(res) ==   \* Client.serviceConnect(): connect_ex answers "ok" | "wait" 
           /\ cconn' = (copen = None /\ res = "ok")
      ELSE /\ UNCHANGED <<copen, next, open>> /\ cconn' = (cconn \/ res = "ok")
   /\ UNCHANGED <<listen, backlog, cx, ix>> /\ Log("cconnect", <<res>>)
+CTimeout ==         \* Client.serviceConnect() of a reconnectable client whose retry tymer has expired while the connection attempt is
+                   \* still in progress: the socket is reopened (old one closed, new one made) and the attempt starts again
+  /\ next <= MaxSocks /\ copen # None /\ ~cconn
+  /\ copen' = next /\ next' = next + 1 /\ open' = (open \ {copen}) \cup {next} /\ cconn' = FALSE
+  /\ UNCHANGED <<listen, backlog, cx, ix>> /\ Log("ctimeout", <<>>)
 CClose ==
   /\ open' = open \ {copen} /\ copen' = None /\ cconn' = FALSE
   /\ UNCHANGED <<next, listen, backlog, cx, ix>> /\ Log("cclose", <<>>)
 HsChoices == [Peers -> {"ok", "block", "abort"}]
 Next == /\ Len(h) < MaxOps
-        /\ \/ Open \/ Close \/ COpen \/ CClose
+        /\ \/ Open \/ Close \/ COpen \/ CClose \/ CTimeout
            \/ \E p \in Peers : PeerConnects(p) \/ Remove(p)
            \/ \E hs \in (IF Tls THEN HsChoices ELSE {[p \in Peers |-> "ok"]}) : ServiceConnects(hs)
            \/ \E r \in {"ok", "wait", "refused"} : CConnect(r)
